@@ -59,6 +59,34 @@ def directed():
             if trig[0] == 'distribution':
                 sc.update(pre_rounds=30, rounds=4)
             out.append(sc)
+    # the host of a STARTING required process is lost, the program has a running failure strategy that is not CONTINUE:
+    # the failure is a STARTING failure (the strategy of the start applies, nothing is restarted)
+    for strat in ('ABORT', 'STOP'):
+        for rfs in ('RESTART_PROCESS', 'RESTART_APPLICATION', 'STOP_APPLICATION'):
+            for when in (0, 1, 2):
+                out.append({'apps': [{'name': 'A', 'seq': 0, 'strategy': strat, 'procs': [
+                    {'name': 'p0', 'seq': 1, 'required': False, 'target': 'n1', 'behaviour': 'normal', 'startsecs': 1,
+                     'rfs': rfs},
+                    {'name': 'p1', 'seq': 1, 'required': True, 'target': 'n2', 'behaviour': 'normal', 'startsecs': 20,
+                     'rfs': rfs},
+                    {'name': 'p2', 'seq': 2, 'required': False, 'target': 'n1', 'behaviour': 'normal',
+                     'startsecs': 1, 'rfs': rfs}]}],
+                    'trigger': ('start_application', 'n1', 'start_application', ['CONFIG', 'A', False]),
+                    'drops': [], 'n': 2, 'rounds': 22, 'lose': ['n2', when]})
+    # two instances planning at the same time: a start sequence requested on one instance is still in progress (first
+    # group slow) when restart_sequence / start_application / restart_application is requested on the other one
+    for first, second in (('n2', 'n1'), ('n1', 'n2')):
+        for trig in (('restart_sequence', second, 'restart_sequence', [False]),
+                     ('start_application', second, 'start_application', ['CONFIG', 'S', False]),
+                     ('restart_application', second, 'restart_application', ['CONFIG', 'S', False])):
+            out.append({'apps': [{'name': 'S', 'seq': 1, 'strategy': 'CONTINUE',
+                                  'procs': [{'name': 's1', 'seq': 1, 'required': True, 'target': 'n2',
+                                             'behaviour': 'normal', 'startsecs': 20},
+                                            {'name': 's2', 'seq': 2, 'required': True, 'target': 'n2',
+                                             'behaviour': 'normal', 'startsecs': 1}]}],
+                        'trigger': trig, 'drops': [], 'n': 2, 'pre_rounds': 16, 'rounds': 16,
+                        'pre_calls': [[first, 'stop_application', ['S', False], 4],
+                                      [first, 'start_application', ['CONFIG', 'S', False], 1]]})
     # known finding F22 (always part of the run): the Master is lost with the request of a required process (STOP)
     out.append({'apps': [{'name': 'A', 'seq': 0, 'strategy': 'STOP',
                           'procs': [{'name': 'p1', 'seq': 1, 'required': True, 'target': 'n1', 'behaviour': 'normal',
